@@ -75,6 +75,15 @@ pub const FAULTS: &[(&str, &str, bool)] = &[
     ("at_without_index", "say x at", false),
     ("stray_symbol", "+ 1", false),
     ("mutation_on_literal", "cut \"a\"", false),
+    // a list whose last or middle element is missing
+    ("list_ending_in_comma", "rock x with 1, 2,", false),
+    ("list_ending_in_and", "let x be with 1, 2, and", false),
+    ("list_with_empty_element", "let x be 1 plus 2, , 3", false),
+    ("list_ending_in_operator", "say x times 2, not", false),
+    ("operand_list_ending_in_comma", "say 1 plus 2,", false),
+    ("argument_list_ending_in_comma", "put x taking 1, 2, into y", false),
+    ("list_ending_in_ampersand", "rock x with 1 & 2 &", false),
+    ("list_ending_in_n", "say 1 plus 2 'n'", false),
 ];
 
 const OPTS: RenderOpts = RenderOpts { alias: true, case: true, noise: false, comments: true, layout: true, crlf: false };
